@@ -15,6 +15,8 @@
     * the Born rule `measure_pure` (+ the non-destructive variant, + multi-wire measurements are
       the measurement of the flattened index), `discard_pure`, `discard_unitary`,
       `discard_marginal`;
+    * classical weights: a wire-less non-mixed box is classical (`wireless_box_is_classical`),
+      read by its value (`classical_weight_entry`), and weighting is linear (`weight_tensor`);
     * adjoints: `encode_is_measure_dagger`, `mixedstate_is_discard_dagger` for every variant (these
       are how the code defines them), `dagger_involutive`, `dagger_then`, `dagger_tensor`,
       `dagger_pure`;
@@ -144,6 +146,27 @@ theorem discard_marginal (ρ : CQMap R) (A B : CQTy) (h : ρ.cod = A.tensor B) {
       sum3 B.C B.Q fun x y z =>
         ρ.f c q p (ca * B.C + x) (qa * B.Q + y) (pa * B.Q + z) * iv (y = z) :=
   CQMap.discard_marginal ρ A B h hc hq hp c q p
+
+/-! ## classical weights -/
+
+/-- A box that is not mixed and has no wire at all is classified as classical (the all-Digit
+    test of `Box.__init__` comes first): `ClassicalGate(name, 0, 0, [w])` is a weight. -/
+theorem wireless_box_is_classical (u : Mat R) :
+    CBox.ofNonMixed [] [] u = .ok (.classical [] [] u) := rfl
+
+/-- … and it is interpreted by its value, not by the squared magnitude. -/
+theorem classical_weight_entry (u : Mat R) :
+    (CBox.classical [] [] u : CBox R).ar.f 0 0 0 0 0 0 = u.f 0 0 := rfl
+
+/-- Weighting is linear: `w ⊗ A` has the entries of `A` multiplied by `w`. -/
+theorem weight_tensor (w : R) (A : CQMap R) {c q p c' q' p' : Nat} (hc : c < A.dom.C)
+    (hq : q < A.dom.Q) (hp : p < A.dom.Q) (hc' : c' < A.cod.C) (hq' : q' < A.cod.Q)
+    (hp' : p' < A.cod.Q) :
+    ((CQMap.scalar w).tensor A).f c q p c' q' p' = w * A.f c q p c' q' p' := by
+  rw [CQMap.tensor_f]
+  show w * _ = _
+  rw [Nat.mod_eq_of_lt hc, Nat.mod_eq_of_lt hq, Nat.mod_eq_of_lt hp, Nat.mod_eq_of_lt hc',
+    Nat.mod_eq_of_lt hq', Nat.mod_eq_of_lt hp']
 
 /-! ## adjoints -/
 
